@@ -276,8 +276,8 @@ def run(tier, replay):
         graphs += [("g4", 2, 1, 1), ("g5", 4, 0, 4096), ("g6", 0, 60, 1)]
     L = 6 if thorough else 5
     balls = [("L4T1", 4, 1, 1), ("L4T0", 4, 0, 16), ("L0T1", 0, 1, 1)]
-    if thorough:
-        balls.append(("L2T60", 2, 60, 1))
+    # (Gen_Cache_ball*_L2T60.cfg - 26 letters, 3.1e8 sequences of length 6 - is kept for manual runs; time limit 60 is
+    #  covered by the complete graphs g3 / g6, MC t3 and the logs)
     jobs = []
     for g, *_ in graphs + [("over", 2, 1, 1)]:
         jobs.append((g, "MC_Cache.tla", "Gen_Cache_%s.cfg" % g,
